@@ -6,10 +6,10 @@ package announce
 // VerifLRU gives the harness the unexported string LRU.
 type VerifLRU struct{ l *stringLRU }
 
-func VerifNewLRU(n int) *VerifLRU          { return &VerifLRU{newStringLRU(n)} }
-func (v *VerifLRU) Update(s string) bool  { return v.l.update(s) }
-func (v *VerifLRU) Remove(s string) bool  { return v.l.remove(s) }
-func (v *VerifLRU) Len() int              { return v.l.len() }
+func VerifNewLRU(n int) *VerifLRU        { return &VerifLRU{newStringLRU(n)} }
+func (v *VerifLRU) Update(s string) bool { return v.l.update(s) }
+func (v *VerifLRU) Remove(s string) bool { return v.l.remove(s) }
+func (v *VerifLRU) Len() int             { return v.l.len() }
 
 // VerifAnnounceCacheSize is the duplicate-filter size the receiver is built with.
 const VerifAnnounceCacheSize = announceCacheSize
